@@ -160,6 +160,10 @@ fn run_mixed(rec: &mut Recorder, w: &mut World, tier: &str, rng: &mut Rng) {
             rec.exec(w, &op.line());
             descr.push(op.line().replace('\t', " "));
             if rng.chance(1, 8) { descr.push(format!("build_role_links -> {}", rec.exec(w, "e.build"))); }
+            // auto-save switched off for the rest of the history, and successful reloads: what was changed since under either
+            // definition is dropped again, the links of both follow
+            if rng.chance(1, 12) { rec.exec(w, "e.auto\tsave\tfalse"); descr.push("enable_auto_save(false)".into()); }
+            if rng.chance(1, 10) { descr.push(format!("load_policy -> {}", rec.exec(w, "e.load"))); rec.count("op:load"); }
             // a load that fails (the adapter errs, or fails after delivering a part): every definition gets its own rules back
             if rng.chance(1, 10) { let f = *rng.pick(&["err", "fail1", "fail3"]); rec.exec(w, &format!("e.fault\t{}", f)); descr.push(format!("load_policy failing ({}) -> {}", f, rec.exec(w, "e.load"))); rec.exec(w, "e.fault\t-"); rec.count("op:failing-load"); }
         }
